@@ -91,6 +91,10 @@ def _get_minimum_numpy_datatype(
         # If we are using raw values, we can determine the minimal dtype from the parameter data encoding
         return _min_dtype_for_encoding(data_encoding)
 
+    if isinstance(parameter_type, parameter_types.EnumeratedParameterType):
+        # Enums are always strings in their derived state, whatever their (usually integer) encoding is
+        return "str"
+
     if isinstance(data_encoding, encodings.NumericDataEncoding):
         if not (data_encoding.context_calibrators is not None or data_encoding.default_calibrator is not None):
             # If there are no calibrators attached to the encoding, then we can proceed as if we're using
@@ -102,10 +106,6 @@ def _get_minimum_numpy_datatype(
 
     if isinstance(data_encoding, encodings.BinaryDataEncoding):
         return "bytes"
-
-    if isinstance(parameter_type, parameter_types.EnumeratedParameterType):
-        # Enums are always strings in their derived state
-        return "str"
 
     if isinstance(data_encoding, encodings.StringDataEncoding):
         return "str"
